@@ -289,6 +289,14 @@ pub fn cmd(line: &str) -> String {
     let args = ArgList::new(it.into_tokens());
     let raw = RawCommand::new(name, args.clone());
     let n_items = args.args().count();
+    // the other ways to walk the classified arguments (Iterator::nth / skip / last) must agree with repeated next()
+    let all: Vec<String> = args.args().map(|a| format!("{:?}", a)).collect();
+    assert_eq!(all.len(), n_items, "ArgsIter::count disagrees with repeated next()");
+    for k in 0..=n_items {
+        assert_eq!(args.args().nth(k).map(|a| format!("{:?}", a)).as_ref(), all.get(k), "ArgsIter::nth({}) disagrees with repeated next()", k);
+        assert_eq!(args.args().skip(k).next().map(|a| format!("{:?}", a)).as_ref(), all.get(k), "ArgsIter skip({}) disagrees with repeated next()", k);
+    }
+    assert_eq!(args.args().last().map(|a| format!("{:?}", a)).as_ref(), all.last(), "ArgsIter::last disagrees with repeated next()");
     let mut rests: Vec<String> = vec![];
     for k in 0..=n_items {
         let mut ai = args.args();
